@@ -31,6 +31,10 @@ CHECKS = {
                      "MUST => code => MUST-NOT envelope of DESIGN section 8.1; searched kinds and roots are part of the paths. increment_decrement: ALL minus EXEMPT with "
                      "EXEMPT = prefix forms below statements of unchecked blocks. The numeric meaning of power-of-two is std's is_power_of_two on the parsed literal.",
                 note=_MIR + "; the oracle is specs/detectors.spec (DESIGN section 8); C01 for 'anywhere in the file'"),
+    "C07": dict(level="other", design_ref="5/C07 + section 8.3", technique="detector summaries with expanded helper predicates (own bound variables), loop cursors as regular access paths, compared with the written spec by ROBDD implication (static analysis)",
+                text="The four vulnerability detectors satisfy MUST => code => envelope of DESIGN section 8.3, including unprotected_selfdestruct's visibility filter, "
+                     "constructor skip, 'only' modifier test and protective-call scan with its skip set, and the regular left-spine paths of divide_before_multiply.",
+                note=_MIR + "; specs/detectors.spec is the oracle; C01 for completeness of the searches"),
     "C09": dict(level="other", design_ref="5/C09", technique="gate formulas extracted from MIR guards, evaluated as formulas over the version triple against the lexicographic spec on a finite grid; guard analysis of the pragma selection (static analysis)",
                 text="Decides each gate as a boolean formula over (major, minor, patch) — exactly on the partition the constants induce (quick) and on the whole grid "
                      "0.0.0..2.12.41 (thorough) — complementarity of pre/post, that only a directive named solidity yields a version, and that no version means no report. "
